@@ -9,6 +9,7 @@ RULE = ('one record per operation history on hash contexts (update, update_mut, 
         'random histories; distinct = (variant, op-kind sequence with chunk-length classes)')
 ASSUMPTIONS = ['same reference hashes as C01']
 FLOORS = {'evaluations': 8000, 'distinct': 4000}
+THOROUGH_ROUNDS = 8   # thorough tier: generator passes with derived seeds (runner.gen_rounds)
 
 FIXED = ['sha1', 'sha224', 'sha256', 'sha384', 'sha512', 'sha512_224', 'sha512_256', 'sha3_224', 'sha3_256', 'sha3_384', 'sha3_512',
          'keccak224', 'keccak256', 'keccak384', 'keccak512', 'ripemd160']
